@@ -7,7 +7,10 @@
 (* patterns (finite, -inf below, +inf above, unbounded, mixed per component)   *)
 (* and with or without a current value; the names have several characters.     *)
 (* Numbers are integer ids: the harness maps id n to n/7 for a float variable  *)
-(* (not representable in 16 decimal digits) and to n for an integer variable.  *)
+(* (most of them need 17 significant digits to be told from their neighbours)  *)
+(* and to n for an integer variable.  An id in a row of the text file means    *)
+(* "a text from which exactly that number is read": the text form must         *)
+(* identify the number, as the binary form does (C11: same bounds and values). *)
 (* For every instance the module computes the rows of the text file and the    *)
 (* layout of the HDF5 group, decodes them again as the readers do, and states  *)
 (* that the decoded space is the instance (RoundTripCsv, RoundTripHdf).  Rows  *)
